@@ -183,6 +183,29 @@ Error EmitHelper::emit_arg_move(
       _emitter->set_inline_comment(comment);
 
       if (src.is_reg()) {
+        if (src_size < dst_size) {
+          // The destination is wider than the source - sign or zero extend it (the source type decides), the
+          // same way the memory source below does it.
+          InstId inst_id = Inst::kIdNone;
+          switch (src_type_id) {
+            case TypeId::kInt8: inst_id = Inst::kIdSxtb; break;
+            case TypeId::kUInt8: inst_id = Inst::kIdUxtb; break;
+            case TypeId::kInt16: inst_id = Inst::kIdSxth; break;
+            case TypeId::kUInt16: inst_id = Inst::kIdUxth; break;
+            case TypeId::kInt32: inst_id = Inst::kIdSxtw; break;
+            case TypeId::kUInt32: inst_id = Inst::kIdMov; break;
+            default:
+              return make_error(Error::kInvalidState);
+          }
+
+          // The source is always a W register. UXTB, UXTH and MOV write a W register, which zeroes the rest.
+          src.set_signature(OperandSignature{RegTraits<RegType::kGp32>::kSignature});
+          if (inst_id == Inst::kIdUxtb || inst_id == Inst::kIdUxth || inst_id == Inst::kIdMov) {
+            dst.set_signature(OperandSignature{RegTraits<RegType::kGp32>::kSignature});
+          }
+          return _emitter->emit(inst_id, dst, src);
+        }
+
         src.set_signature(dst.signature());
         return _emitter->emit(Inst::kIdMov, dst, src);
       }
@@ -194,7 +217,11 @@ Error EmitHelper::emit_arg_move(
           case TypeId::kInt16: inst_id = Inst::kIdLdrsh; break;
           case TypeId::kUInt16: inst_id = Inst::kIdLdrh; break;
           case TypeId::kInt32: inst_id = x ? Inst::kIdLdrsw : Inst::kIdLdr; break;
-          case TypeId::kUInt32: inst_id = Inst::kIdLdr; break;
+          case TypeId::kUInt32:
+            // A 32-bit load into a W register zero extends - loading an X register would read 8 bytes.
+            inst_id = Inst::kIdLdr;
+            dst.set_signature(OperandSignature{RegTraits<RegType::kGp32>::kSignature});
+            break;
           case TypeId::kInt64: inst_id = Inst::kIdLdr; break;
           case TypeId::kUInt64: inst_id = Inst::kIdLdr; break;
           default:
